@@ -267,9 +267,10 @@ def byte_accounting(ctx, rule):
         if a["func"].path != w.path:
             return "written outside BlockWriter::write"
         if v[0] == "bin" and v[1].startswith("Sub") and show(v[2]) == "self.bytes_left":
-            sub = strip_ref(sl.expand(v[3]))
-            if sub[0] == "call" and sub[1].endswith("::len") and strip_ref(sub[2][0])[0] == "var" and strip_ref(sub[2][0])[1] in handed:
-                return None
+            # `self.bytes_left -= data.len()` or, with the length read into a local first, `let n = data.len(); self.bytes_left -= n`
+            for sub in (strip_ref(v[3]), strip_ref(sl.expand(v[3], stop=handed))):
+                if sub[0] == "call" and sub[1].endswith("::len") and strip_ref(sub[2][0])[0] == "var" and strip_ref(sub[2][0])[1] in handed:
+                    return None
             return "bytes_left decreases by %s, not by the length of the data handed to the writer" % show(v[3], 60)
         return "bytes_left assigned %s" % show(v, 60)
 
